@@ -33,10 +33,11 @@ func rangeKV(k, v ssa.Value) (*ssa.Range, bool) {
 }
 
 func C18(c *Ctx) {
-	c.R.Explanation = "Decides structural necessary conditions of 'permanent bindings survive every action and guard' on the SSA form of FuncAction.Exec: (R1) before the wrapped function is called, every (name, value) pair of the given bindings whose name is permanent is saved into a map created by this activation (not shared between executions); after the call, on every path that returns bindings, exactly the saved pairs are written back into the returned bindings — names and values both come from the saved map, never from the (possibly mutated) given bindings; the only ways around the write-back are the feature switch, a nil execution and nil bindings; (R2) FuncAction is the only Action implementation in the repository and the only caller of interpreter Exec functions, so every action and guard goes through the wrapper; (R3) the write-back is nil-safe and leaves nil bindings nil (a rejecting guard still rejects). Values for all scripts are not decided."
+	c.R.Explanation = "Decides structural necessary conditions of 'permanent bindings survive every action and guard' on the SSA form of FuncAction.Exec: (R1) before the wrapped function is called, every (name, value) pair of the given bindings whose name is permanent is saved into a map created by this activation (not shared between executions); after the call, on every path that returns bindings, exactly the saved pairs are written back into the returned bindings — names and values both come from the saved map, never from the (possibly mutated) given bindings; the only ways around the write-back are the feature switch, a nil execution and nil bindings; (R2) FuncAction is the only Action implementation in the repository and the only caller of interpreter Exec functions, so every action and guard goes through the wrapper; (R3) the write-back is nil-safe and leaves nil bindings nil (a rejecting guard still rejects); (R4) nothing reachable from the given bindings is reachable from a value handed to the ECMAScript runtime, so a script cannot alter a permanent binding's value in place (the snapshot holds the same value object). Values for all scripts are not decided."
 	c.R.Rule("C18-R1", "E3+E5", "snapshot before, restore after, from a private map", 6)
 	c.R.Rule("C18-R2", "E7", "the wrapper is the sole executor", 3)
 	c.R.Rule("C18-R3", "E2", "restore is nil-safe and does not force bindings", 2)
+	c.R.Rule("C18-R4", "E1", "scripts cannot change a (permanent) binding's value in place: they see copies", 1)
 	exec := c.fn("core", "FuncAction", "Exec")
 	isPerm := c.fn("core", "", "isPermanent")
 	if exec == nil || isPerm == nil {
@@ -237,6 +238,12 @@ func C18(c *Ctx) {
 	}
 	c.R.Check(okAfter, "C18-R1", "Exec: restore on every path that returns bindings", c.pos(restore), "the only ways around the write-back are the feature switch, a nil execution and nil bindings", "a path from the wrapped call to a return bypasses the write-back of permanent bindings")
 
+	// ---- R4 scripts see copies (a value shared with the script could be altered in place, and the altered value would be "restored")
+	if ea, _ := c.ecmaAnalysis(); ea != nil {
+		if c.scriptIsolation("C18-R4", ea, true) == 0 {
+			c.R.Break("C18-R4: no value handed to the script runtime found")
+		}
+	}
 	// ---- R2 sole executor
 	actionT := c.P.NamedType("core", "Action")
 	interpT := c.P.NamedType("core", "Interpreter")
